@@ -64,8 +64,44 @@ func c06fxReq(frame []byte) (*sshfx.RequestPacket, []byte, error) {
 		return nil, nil, err
 	}
 	re, err := rp.MarshalBinary()
+	if err != nil {
+		return &rp, re, err
+	}
+	// a server loop decodes a stream of requests into ONE RequestPacket value: whatever request was decoded into
+	// it before (one sample frame of every other kind met so far), this frame must decode to the same packet
+	kind := string(frame[4:5])
+	if len(frame) > 13 && frame[4] == sshFxpExtended {
+		n := int(binary.BigEndian.Uint32(frame[9:]))
+		if n >= 0 && 13+n <= len(frame) {
+			kind += string(frame[13 : 13+n])
+		}
+	}
+	for pk, primer := range c06primers {
+		if pk == kind {
+			continue
+		}
+		c06reusedReq = sshfx.RequestPacket{}
+		if err := c06reusedReq.UnmarshalBinary(primer[4:]); err != nil {
+			continue
+		}
+		if err := c06reusedReq.UnmarshalBinary(frame[4:]); err != nil {
+			return &rp, re, fmt.Errorf("decoding into a RequestPacket that held a %q request before: %w", pk, err)
+		}
+		re2, err := c06reusedReq.MarshalBinary()
+		if err != nil || !bytes.Equal(re2, re) {
+			return &rp, re, fmt.Errorf("decoding into a RequestPacket that held a %q request before gives another packet: re-encoded %x, from a fresh value %x (%v)", pk, re2, re, err)
+		}
+	}
+	if _, ok := c06primers[kind]; !ok && len(c06primers) < 64 {
+		c06primers[kind] = append([]byte(nil), frame...)
+	}
 	return &rp, re, err
 }
+
+var (
+	c06reusedReq sshfx.RequestPacket
+	c06primers   = map[string][]byte{}
+)
 
 // c06fxResp decodes a response frame: RawPacket, then the typed body.
 func c06fxResp(frame []byte, typ sshfx.PacketType, body sshfx.Packet) (uint32, []byte, error) {
